@@ -26,8 +26,8 @@ def run(ctx):
         menu += [("k2b", [L], 1), ("k2m1", [1, L], 1), ("k3a", [1, L], 1), ("k2mat", [L], 0), ("k2eps", [L], 0),
                  ("k2w3", [L], 0)]
         jmenu += [("j1", [L], 0), ("j2zero", [L], 0)]
-    ps = ml.e2_plans(ctx, menu, MONS, entry="front", conform=False)
-    ps += ml.e2_plans(ctx, jmenu, MONS, entry="front", conform=False)
+    ps = ml.e2_plans(ctx, menu, MONS, entry="front", conform=True)
+    ps += ml.e2_plans(ctx, jmenu, MONS, entry="front", conform=True)
     ml.explore(ctx, ps)
     ml.e2_describe(ctx, ps, "Monitor (result fields only): cost == -overall_ll + within-series switching cost "
                    "(tolerance 1e-9 x (sum|terms| + T max beta)); one all_log_likelihood entry per labelled point; "
